@@ -26,7 +26,8 @@ check("C11",
       "-> to_dict and TLC judges the dictionary against ToDict (per-position unfolding, canonical order) and the rebuilt chain "
       "against the original; random dictionaries with several modes / conflicting repeats must be rejected exactly when FromDict "
       "rejects; final states built from string, list, tuple, mapping and PDG ids in shuffled orders must be the same bag in one "
-      "canonical order; every EvtGen id; parser-produced single-line chains round trip up to daughter order.",
+      "canonical order; every EvtGen id; parser-produced single-line chains round trip up to daughter order; chains with an empty "
+      "final state and a zero branching fraction (the documented defaults) are included.",
       CH_NOTE, "DESIGN.md section 5, C11")
 check("C12",
       "PlusCal algorithm with the loop structure of DecayChain.flatten (spec/Flatten.tla) model-checked with TLC over every "
@@ -43,7 +44,8 @@ check("C13",
       "Every chain of the Flatten universe and random chains with repeated decaying daughters are built with names from real "
       "spellings (parentheses, quotes, signs), rendered under 6 (top, sub) pattern pairs in shuffled input orders; the harness "
       "enumerates all parses of each string (exactly one demanded) and TLC judges the read-back tree, as an unordered tree, "
-      "against TreeOf(c); all input orders must give the identical string.",
+      "against TreeOf(c); all input orders must give the identical string; every third chain has modes with the default "
+      "branching fraction 0.",
       CH_NOTE, "DESIGN.md section 5, C13")
 check("C14",
       "TLA+ stack machine (spec/Descriptor.tla) model-checked with TLC; TLC-generated behaviours replayed into real with-blocks",
@@ -142,7 +144,8 @@ check("C04",
       "conjugated by the real utility under both namings and three call styles in long shuffled sequences with near and far "
       "repeats (the 64-entry cache is cycled many times), each result and its re-conjugation judged by TLC; random final "
       "states and decay modes (multiplicities 1..5, JSON-like metadata) and the CDecay route for the same decays are judged "
-      "against ConjBag, with cross-layer agreement.",
+      "against ConjBag, with cross-layer agreement; the parse-tree visitor (ChargeConjugateReplacement) is applied once and twice "
+      "to hand-built decay trees; metadata carrying the documented defaults (None, empty values) must survive with their types.",
       "Trusts TLC and the installed particle data (ids, self-conjugate flags, name maps) as the reference.",
       "DESIGN.md section 5, C04")
 check("C06",
@@ -185,7 +188,7 @@ check("C16",
       "TLC enumerates every table (ranks with ties) x every option combination of the bounded universe, checks that the declarative "
       "order equals the stable-sort machine, and emits the cases; each is printed by the real code (bfs drawn from values spanning "
       "1e-12..1, mother by EvtGen or PDG name) and TLC judges refusal, one row per line, order with ties in file order, columns, "
-      "that the shown number fits the scaling kind the options select (exact rational arithmetic in the harness, 7 digits) and that "
+      "that the shown number fits the scaling kind the options select (exact rational arithmetic in the harness, to 1.5 units of the 7th printed digit; tables summing to one within 1e-6 included) and that "
       "stored values are unchanged.",
       "Trusts TLC, the stdout row parser of harness/c16.py (rows identified by their unique daughters) and Fraction arithmetic.",
       "DESIGN.md section 5, C16")
@@ -237,9 +240,11 @@ check("C20",
       "TLA+ model of the process-wide reader state (spec/AmpSession.tla: shared particle set, class-attribute look-up of the "
       "cartesian switch) model-checked with TLC for two designs; TLC-emitted histories executed in fresh interpreters and "
       "compared with single fresh calls",
-      "TLC checks HistoryIndependent over every history of <= 4 calls (3 reader classes x 4 files) for the per-read design "
-      "and refutes the accumulating one (F8, F13). Histories of 2 and 3 calls emitted by TLC (a sample per run) are executed "
-      "each in its own fresh interpreter over 4 real files (disjoint / overlapping resonances, option absent / 0 / 1); every "
+      "TLC checks HistoryIndependent over every history of <= 4 calls (3 reader classes x 6 files, one of them rejected after its "
+      "option was applied, one naming a particle the special particle table overrides) for the per-read design and refutes the "
+      "accumulating one (F8, F13), the one that skips the restore when a read is rejected and the one that loads the special "
+      "particle table on demand. Histories of 2 and 3 calls emitted by TLC (a sample per run) are executed "
+      "each in its own fresh interpreter over 6 real files (disjoint / overlapping resonances, option absent / 0 / 1); every "
       "call's observable result (amplitudes, tables, text as a line multiset without the timestamp) must equal that of the "
       "same single call in a fresh interpreter; single calls are repeated under several PYTHONHASHSEED values; histories are "
       "re-run in a second fresh process and must reproduce the text exactly; the recorded histories are validated by TLC as "
